@@ -10,7 +10,7 @@ SFX=${ISO_SUFFIX:-}; MR=/root/work/mutrepo$SFX; MV=/root/work/mutverif$SFX
 REV=$(git -C /repo rev-parse HEAD)
 # a snapshot of /verif is tried against the revision of /repo it was taken for
 [ -n "${VERIF_SRC:-}" ] && [ -f "$VERIF_SRC/.repo_rev" ] && REV=$(cat "$VERIF_SRC/.repo_rev")
-cd $MR && git checkout -q -- . && git checkout -q --detach "$REV" || exit 2
+cd $MR && git checkout -q -- . && git clean -fdq crates && git checkout -q --detach "$REV" || exit 2
 mkdir -p $MV
 rsync -a --delete --exclude .git --exclude harness/target --exclude harness/Cargo.toml --exclude evidence --exclude replays ${VERIF_SRC:-/verif}/ $MV/
 mkdir -p $MV/evidence $MV/replays
@@ -25,5 +25,5 @@ for p in $PROPS; do
   [ $rc -ne 0 ] && grep '^VIOLATION' /tmp/benign.$$.out | head -3
 done
 rm -f /tmp/benign.$$.out
-cd $MR && git checkout -q -- . && git status --short | head -3
+cd $MR && git checkout -q -- . && git clean -fdq crates && git status --short | head -3
 exit 0
